@@ -89,6 +89,64 @@ CHECKS = {
         "Trusted: numpy view semantics as the aliasing reference; vlib/unitmodel.py. Bounded to <=12 steps, "
         "1-d members of 3-6 rows. Not covered: 2-d slices.",
         "DESIGN.md section 3 C17"),
+    "C01": (
+        "generator-as-model PBT: Hypothesis-generated AMR trees written to RAMSES files by an independent "
+        "record-by-record writer; oracle = the model's leaf table (row multisets on the exact cell lattice)",
+        "Each generated output (ndim 1-3, 1-9 CPUs, boundaries, poisoned ghost and boundary octs, header sizes, "
+        "variable lists, unit scales over 60 decades, explicit or -1 output number with decoys) is loaded in full "
+        "and compared with the model: key set after vector assembly, row multiset (no missing, duplicated or ghost "
+        "row), geometry, level, cpu, every variable x unit factor, unit dimensions, derived mass and B_field, "
+        "meta ncells/time. Exploration bounded to trees of <=2500 cells and <=6 levels above levelmin.",
+        "Trusted: the RAMSES record layout of DESIGN.md Appendix A as implemented by vlib/ramses_model.py "
+        "(cross-validated by osyris' own loader reading it exactly) and RAMSES' unit conventions in var_factor().",
+        "DESIGN.md section 3 C01"),
+    "C04": (
+        "model-based PBT (selection predicates evaluated with numpy on the model's leaf table) with a generator "
+        "built to reach the pre-selection's case analysis; exhaustive + generated differential check of the "
+        "Hilbert curve against a structurally validated reference",
+        "Generated outputs with RAMSES father-cell ownership and adversarial bound keys are loaded with interval "
+        "predicates placed around leaves (boxes smaller than the leaf they hit, edge-touching, all/some axes), "
+        "value predicates and explicit cpu lists; the result must equal the model's filtered table in every "
+        "column; the number of files opened is recorded to measure how often pre-selection restricted.",
+        "Trusted: ownership rule (father-cell centre key at levelmax+1 bits), frozen 12-state table validated by "
+        "bijection/adjacency/prefix checks, Appendix A layout. Bounded to <=9 CPUs, levelmax <= 8.",
+        "DESIGN.md section 3 C04"),
+    "C12": (
+        "model-based PBT: level predicates on generated outputs, oracle = the model tree truncated at the highest "
+        "accepted level + exact tiling-volume invariant",
+        "Level predicates (<=, <, ==, band, >=) alone or ANDed with value/position predicates are applied to "
+        "generated outputs; the rows must be exactly the cells of the truncated tree satisfying the predicates "
+        "with their stored restriction values, meta lmax must equal the cap, and full-prefix predicates must "
+        "tile the box volume exactly.",
+        "Trusted: refined cells carry restriction values (the writer stores independent values in every cell).",
+        "DESIGN.md section 3 C12"),
+    "C13": (
+        "model-based + differential PBT: full load vs model (nothing lost or renamed by the merge), selective "
+        "loads vs the full load bit for bit; variable-name sets generated from an x/y/z-rich alphabet",
+        "Generated outputs whose hydro/particle descriptors contain suffix/infix/prefix/no-underscore component "
+        "families, partial families, z components in 2-D and scalars bearing a family's merged name are loaded "
+        "in full and with group lists, group strings, {group: False} and per-group variable lists; every "
+        "requested variable must be bit-identical to the full load, nothing excluded may appear, vectors exactly "
+        "for families whose ndim components were loaded.",
+        "Trusted: Appendix A layout; merged names asserted only where the loader documents them.",
+        "DESIGN.md section 3 C13"),
+    "C14": (
+        "generator-as-model PBT for particle files (typed columns, header record sizes, per-CPU counts) and sink "
+        "CSV files (both unit-line dialects), oracle = the generating model",
+        "Generated particle descriptors mixing d/i/b columns with full-range values, zero-particle CPUs and "
+        "arbitrary header record lengths, and sink files with 1-6 sinks / empty / missing in both unit dialects "
+        "are loaded (optionally with sortby); every column must equal the model's concatenation x unit factor "
+        "with rows aligned as tuples; sortby must sort the key and preserve the row multiset.",
+        "Trusted: Appendix A particle layout; sink unit-line grammar as documented in osyris' reader.",
+        "DESIGN.md section 3 C14"),
+    "C15": (
+        "model-based PBT over histories of load() calls; oracle = a fresh RamsesDataset executing only the "
+        "current call (differential against fresh execution)",
+        "Generated sequences of 2-6 load() calls (full, group subsets, variable lists, restricting position "
+        "predicates, level caps, value predicates, cpu_list, sortby) on one dataset; after each call every "
+        "produced group must be bit-identical to the fresh result, other groups unchanged, counts consistent.",
+        "Trusted: the fresh-dataset result (decided by C01-C14). Bounded to 6 calls per history.",
+        "DESIGN.md section 3 C15"),
 }
 
 NOT_APPLICABLE = []
